@@ -163,6 +163,25 @@ Section TrackX.
   Qed.
 End TrackX.
 
+(** the names on the writer's items are names of nodes *)
+Lemma the_items_names g tr T : wf_C07 g = true -> (forall x, In x (rkeys T) -> In x (node_keys g)) ->
+  forall i, In i (the_items (name_of g) (esym_of g) (rsym_of g tr) T tr) -> valid_name (l_name i) = true.
+Proof.
+  intros Hwf A5 i Hi. set (items := the_items (name_of g) (esym_of g) (rsym_of g tr) T tr) in *.
+  assert (Hnames : forall k, In k (rkeys T) -> valid_name (name_of g k) = true) by (intros k Hk; apply wf_valid_names; [exact Hwf|now apply A5]).
+  destruct (tlinsR_rename (name_of g) (name_of g) (esym_of g) (rlist_of tr) (rsym_of g tr) T false 0%nat None []) as (_ & Hlen & Eself).
+  change (fst (tlinsR (name_of g) (esym_of g) (rlist_of tr) (rsym_of g tr) false 0 None [] T)) with items in *.
+  assert (Hnm : exists k, In k (worder T) /\ l_name i = name_of g k).
+  { apply In_nth_error in Hi as [n Hn].
+    assert (Hlt : (n < length (worder T))%nat) by (rewrite <- Hlen; apply nth_error_Some; congruence).
+    destruct (nth_error (worder T) n) as [k|] eqn:Ek; [|apply nth_error_None in Ek; lia]. exists k. split; [now apply nth_error_In in Ek|].
+    apply (self_rename (name_of g) items (worder T) Hlen Eself (i, k)).
+    clear - Hn Ek. revert n Hn Ek. generalize (worder T). induction items as [|x xs IH]; intros [|y ys] n Hn Ek; destruct n; try discriminate.
+    - cbn in *. inversion Hn; inversion Ek; subst. now left.
+    - cbn in *. right. now apply (IH ys n). }
+  destruct Hnm as [k [Hk ->]]. apply Hnames. now apply (worder_in T).
+Qed.
+
 (** ------------------------------------------------------------------ the round trip, no condition on the tree *)
 Theorem coarse_graph_roundtrip_any : forall fo a0 dh F (D : Z -> list dspec) g tr,
   fragment_node_parser fo [] = Ok a0 ->
